@@ -140,12 +140,28 @@ func r2Ascii(c *core.Ctx, r *core.Reporter) {
 			n++
 			for _, ci := range core.CallSites(fn) {
 				cal := ci.Common().StaticCallee()
-				if cal == nil || cal.Pkg == nil || cal.Pkg.Pkg.Path() != "unicode" {
+				if cal == nil || cal.Pkg == nil {
 					continue
 				}
-				if strings.HasPrefix(cal.Name(), "Is") || cal.Name() == "In" {
-					bad = fmt.Sprintf("%s calls unicode.%s", fnKey(fn), cal.Name())
-					pos = ci.Pos()
+				switch cal.Pkg.Pkg.Path() {
+				case "unicode":
+					if strings.HasPrefix(cal.Name(), "Is") || cal.Name() == "In" {
+						bad = fmt.Sprintf("%s calls unicode.%s", fnKey(fn), cal.Name())
+						pos = ci.Pos()
+					}
+				case "strconv":
+					// the numeric parsers of strconv accept signs, underscores and base prefixes the grammar does not have
+					if strings.HasPrefix(cal.Name(), "Parse") || cal.Name() == "Atoi" {
+						bad = fmt.Sprintf("%s calls strconv.%s (accepts a sign and other spellings the grammar's digit sequences do not have)", fnKey(fn), cal.Name())
+						pos = ci.Pos()
+					}
+				case "strings", "bytes":
+					// the helpers whose notion of white space is unicode.IsSpace
+					switch cal.Name() {
+					case "TrimSpace", "Fields":
+						bad = fmt.Sprintf("%s calls %s.%s (white space as defined by Unicode)", fnKey(fn), cal.Pkg.Pkg.Path(), cal.Name())
+						pos = ci.Pos()
+					}
 				}
 			}
 		}
